@@ -381,6 +381,15 @@ PedHalfSibs ==
    f |-> F2skew, haps |-> Haps2,
    reads |-> << << R(<<1, -1>>, 1) >>, <<>>, << R(<<0, 1>>, 1), R(<<-1, 0>>, 1) >>,
                 << R(<<1, 0>>, 2) >>, << R(<<-1, 1>>, 1) >> >>]
+(* a parental pair (1, 2) with a joint child 3, where parent 1 ALSO has a child 4 with an unknown second parent: the *)
+(* swap move of the pair must carry child 4's inheritance term in its blanket                                        *)
+PedTrioPlusDuo ==
+  [name |-> "trio_plus_duo2x", K |-> 2, n |-> 4, ploidy |-> <<2, 2, 2, 2>>,
+   par |-> << <<0, 0>>, <<0, 0>>, <<1, 2>>, <<1, 0>> >>,
+   tau |-> [i \in 1..4 |-> <<1, 1>>], lam |-> NoLam(4),
+   err |-> << <<U, U>>, <<U, U>>, << <<1, 4>>, <<1, 4>> >>, << <<1, 4>>, U >> >>,
+   f |-> F2flat, haps |-> Haps2,
+   reads |-> << << R(<<1, -1>>, 1) >>, << R(<<0, 1>>, 1) >>, <<>>, << R(<<1, 0>>, 1) >> >>]
 PedSelfing ==
   [name |-> "selfing2x", K |-> 3, n |-> 2, ploidy |-> <<2, 2>>,
    par |-> << <<0, 0>>, <<1, 1>> >>, tau |-> << <<1, 1>>, <<1, 1>> >>,
@@ -438,9 +447,9 @@ PedDuo4xLam ==      \* unknown p, known tetraploid q with double reduction
    lam |-> << <<Z, Z>>, << Z, <<1, 4>> >> >>, err |-> << <<U, U>>, << U, <<1, 4>> >> >>, f |-> F2skew, haps |-> Haps2,
    reads |-> << << R(<<1, -1>>, 1) >>, << R(<<-1, 1>>, 1) >> >>]
 
-PedsQuick == << PedFounders, PedDuo, PedTrio2x, PedTrio2xE0, PedSelfing, PedMixed2, PedHalfSibs, PedSelfing4x, PedTwoGen,
-               PedMixedDuo >>
-PedsThorough == PedsQuick \o << PedTetraLam, PedClone, PedMixed3, PedTrio2xB, PedDuo4xLam >>
+PedsQuick == << PedFounders, PedDuo, PedTrio2x, PedTrio2xE0, PedSelfing, PedMixed2, PedHalfSibs, PedTrioPlusDuo, PedSelfing4x, PedTwoGen,
+               PedMixedDuo, PedDuo4xLam >>
+PedsThorough == PedsQuick \o << PedTetraLam, PedClone, PedMixed3, PedTrio2xB >>
 PedsBalanced == << PedTrio2x, PedSelfing, PedHalfSibs >>
 PedsMixedOnly == << PedMixed2 >>
 PedsSelfOnly == << PedSelfing >>
